@@ -9,6 +9,8 @@ Fixpoint powerset {X} (l : list X) : list (list X) :=
   match l with [] => [[]] | x :: t => let p := powerset t in (p ++ map (cons x) p)%list end.
 Definition show_preds (M : list string) : string :=
   String.concat "" (map show_bool [has_network M; has_io M; has_stdout M; has_stderr M; has_global M; has_read M; has_stdin M; has_syscall M; has_write M])
-  ++ "/" ++ String.concat "" (map (fun r => show_bool (linter_covers M (fst (fst r)))) DOC_MARKERS).
+  ++ "/" ++ String.concat "" (map (fun r => show_bool (linter_covers M (fst (fst r)))) DOC_MARKERS)
+  (* the other names of a marker, as a callee / a stub can declare them *)
+  ++ "/" ++ String.concat "" (map (fun r => show_bool (linter_covers M (fst r))) MARKER_ALIASES).
 (* all subsets of [rest] united with [fixed] (plus optional custom markers), in powerset order *)
 Definition show_shard (fixed rest : list string) : string := lines (map (fun s => show_preds (fixed ++ s)%list) (powerset rest)).
